@@ -141,12 +141,19 @@ def enclosing_func(node):
     return None
 
 
+CANON = os.environ.get("XV_CANON", "1") != "0"  # engine/canon.py: single-use temporaries folded into their use
+
+
 class Module:
     def __init__(self, repo, rel, src):
         self.repo = repo
         self.rel = rel
         self.src = src
         self.tree = ast.parse(src, filename=rel)
+        if CANON:
+            from .canon import fold_module
+
+            self.folded = fold_module(self.tree)
         set_parents(self.tree)
         self.quals: dict[str, ast.AST] = {}
         self.assigns: dict[str, list[ast.AST]] = {}
